@@ -71,6 +71,9 @@ def _renames(rng, c, t, sep, ic, candidates):
 
 
 def generate(tier, rng):
+    # far deeper than the interpreter's recursion limit: what is defined by walking the parent links must not recurse per level
+    for depth in ([1500] if tier == "quick" else [1500, 3000]):
+        yield {"fam": "deepchain", "depth": depth, "cls": rng.choice(["nm", "light", "node"]), "what": "get"}
     nmax = 5 if tier == "quick" else 6
     for n in range(1, nmax + 1):
         for sh in gen.shapes(n):
@@ -135,6 +138,8 @@ def generate(tier, rng):
 
 
 def judge(case, impl, drv):
+    if case.get("fam") == "deepchain":
+        return impl == {"ok": True}, True
     if isinstance(impl, dict) and impl.get("skip"):
         return True, True
     if not isinstance(impl, list):
@@ -159,4 +164,6 @@ def mirror_spec_ok(case, drv):
 
 
 def nontrivial(case):
+    if case.get("fam") == "deepchain":
+        return True
     return gen.tree_size(case["tree"]) >= 3
